@@ -30,6 +30,45 @@ type hopForm struct {
 
 // findHopGuard locates the comparison against the ttl bound in fn and normalises it.
 func findHopGuard(p *Prog, fn *ssa.Function) (*hopForm, string) {
+	hf, why := findHopGuardIn(p, fn)
+	if hf != nil || !strings.HasPrefix(why, "no comparison") {
+		return hf, why
+	}
+	// the backtrace loop may have been moved into a private helper that receives the ttl
+	// as an argument: look there, reading its parameters as the caller's arguments
+	var out *hopForm
+	outWhy := why
+	EachInstr(fn, func(in ssa.Instruction) {
+		c := CallOf(in)
+		if c == nil || out != nil {
+			return
+		}
+		if _, isGo := in.(*ssa.Go); isGo {
+			return
+		}
+		sc := c.StaticCallee()
+		if sc == nil || sc.Blocks == nil || sc.Pkg != fn.Pkg {
+			return
+		}
+		saved := descSubst
+		ns := map[*ssa.Parameter]string{}
+		for i, par := range sc.Params {
+			if i < len(c.Args) {
+				ns[par] = Desc(c.Args[i])
+			}
+		}
+		descSubst = ns
+		if h2, w2 := findHopGuardIn(p, sc); h2 != nil {
+			out = h2
+		} else if !strings.HasPrefix(w2, "no comparison") {
+			outWhy = w2
+		}
+		descSubst = saved
+	})
+	return out, outWhy
+}
+
+func findHopGuardIn(p *Prog, fn *ssa.Function) (*hopForm, string) {
 	var cmp *ssa.BinOp
 	var iff *ssa.If
 	for _, b := range fn.Blocks {
@@ -65,6 +104,15 @@ func findHopGuard(p *Prog, fn *ssa.Function) (*hopForm, string) {
 		for _, in := range s.Instrs {
 			if c := CallOf(in); c != nil && CalleeName(c) == "mangos.(*Message).Free" {
 				dropIdx = k
+			}
+		}
+		// in a bool helper ("could the message be accepted?") the dropping edge is the one
+		// that returns false: the caller discards the message on a false result
+		if dropIdx < 0 {
+			if ret, ok := s.Instrs[len(s.Instrs)-1].(*ssa.Return); ok && len(ret.Results) == 1 {
+				if cst, ok := ret.Results[0].(*ssa.Const); ok && cst.Value != nil && cst.Value.ExactString() == "false" {
+					dropIdx = k
+				}
 			}
 		}
 		// the unlock-then-free shape (xpair1): look one level deeper on straight-line code
@@ -339,7 +387,7 @@ func runC09(p *Prog, r *Report) {
 			r.Check(hasAtom(gos[1].Guard, "φs2 != φs1") && !hasAtom(gos[0].Guard, "φs2 != φs1"), R, "second-direction-iff-distinct", gos.Pos(p), "second direction only when s1 != s2", "the reverse forwarder is not conditional on s2 != s1 (a loopback device would forward twice)")
 		}
 		for _, c := range [][2]string{{"ErrClosed", ""}, {"ErrBadProto", ""}, {"ErrNotRaw", ""}} {
-			ret := dv.Ev("return", "").Arg(0, c[0])
+			ret := append(dv.Ev("return", "").Arg(0, c[0]), dv.Ev("callee-return", "").Arg(0, c[0])...)
 			r.Check(len(ret) >= 1, R, "returns-"+c[0], ret.Pos(p), "returns "+c[0], "Device no longer returns "+c[0])
 		}
 		// mismatch predicate
@@ -383,15 +431,25 @@ func xstarDropPredicate(p *Prog, r *Report, R string) {
 	if !f.OK() {
 		return
 	}
-	hf, why := findHopGuard(p, f.fn)
-	if hf == nil || hf.Drop == nil {
-		r.Unk(R, "protocol/xstar/receiver/drop-predicate", f.Pos(), "cannot locate the drop block: "+why)
+	// the point where a message is ACCEPTED (its header word is split off): it is reached
+	// exactly when the message is not dropped, however the drop tests are arranged (one
+	// compound condition or several consecutive ifs)
+	acc := f.Ev("store", "*.Header")
+	var accB *ssa.BasicBlock
+	for _, e := range acc {
+		if strings.HasSuffix(e.Args[0], ".Body[:4]") && e.Site == nil {
+			accB = e.In.Block()
+		}
+	}
+	if accB == nil {
+		r.Unk(R, "protocol/xstar/receiver/drop-predicate", f.Pos(), "cannot locate the point where the hop header is split off")
 		return
 	}
+	hf := &struct{ Pos string }{p.InstrPos(accB.Instrs[0])}
 	b := "recv.p.RecvMsg().Body"
 	dom := map[string][]int64{"len(" + b + ")": {0, 3, 4, 5}, b + "[0]": {0, 1}, b + "[1]": {0, 1}, b + "[2]": {0, 1}, b + "[3]": {0, 1, 2, 3}, "recv.s.ttl": {1, 2, 3}}
-	res := ComparePred(hf.Drop, dom, []string{"recv.p.RecvMsg() != nil"}, func(env map[string]int64) bool {
-		return env["len("+b+")"] < 4 || env[b+"[0]"] != 0 || env[b+"[1]"] != 0 || env[b+"[2]"] != 0 || env[b+"[3]"] >= env["recv.s.ttl"]
+	res := ComparePred(accB, dom, []string{"recv.p.RecvMsg() != nil"}, func(env map[string]int64) bool {
+		return !(env["len("+b+")"] < 4 || env[b+"[0]"] != 0 || env[b+"[1]"] != 0 || env[b+"[2]"] != 0 || env[b+"[3]"] >= env["recv.s.ttl"])
 	})
 	switch {
 	case res.Undec != "":
